@@ -52,6 +52,8 @@ type chunkTransport struct {
 	closed bool
 	chunk  int
 	dead   bool // the broker side could not parse the stream any more
+	// PINGREQ packets parsed (a ping whose context has already ended may or may not have written one)
+	pingreqs int
 }
 
 func (t *chunkTransport) Write(p []byte) (int, error) {
@@ -134,6 +136,7 @@ func (t *chunkTransport) broker(inbound int, done chan struct{}) {
 			case 0xA0:
 				t.in = append(t.in, netsim.Ack(0xB0, p.ID)...)
 			case 0xC0:
+				t.pingreqs++
 				t.in = append(t.in, netsim.PingResp()...)
 			}
 			t.cond.Broadcast()
@@ -261,10 +264,13 @@ func runWire(sc *WireScenario) *WireResult {
 					if err := cli.Unsubscribe(ctx, f); err != nil {
 						addErr("unsubscribe: " + netsim.ErrClass(err))
 					}
+				case 'x':
+					// a ping that is given up at once (its context has already ended): the PINGREQ may or may not get
+					// onto the wire; what matters here is the failing-ping path running concurrently with everything else
+					xctx, xcancel := context.WithCancel(ctx)
+					xcancel()
+					_ = cli.Ping(xctx)
 				case 'g':
-					emu.Lock()
-					res.Pings++
-					emu.Unlock()
 					if err := cli.Ping(ctx); err != nil {
 						addErr("ping: " + netsim.ErrClass(err))
 					}
@@ -292,6 +298,7 @@ func runWire(sc *WireScenario) *WireResult {
 	<-bdone
 	t.mu.Lock()
 	res.Stream = ints(t.stream)
+	res.Pings = t.pingreqs
 	t.mu.Unlock()
 	return res
 }
